@@ -202,25 +202,25 @@ retry:
 		}
 	}
 	cov := map[string]interface{}{
-		"evaluations":           b.runs,
-		"distinct_nontrivial":   len(b.ntfps),
-		"rule":                  s.Rule,
-		"samples":               b.samples,
-		"distinct_fingerprints": len(b.fps),
-		"nontrivial_runs":       b.nontrivial,
-		"aborted_runs":          b.aborted,
-		"abort_reasons":         b.abortWhy,
-		"runs_per_hour":         int(float64(b.runs) / wall * 3600),
-		"simulated_time_s":      float64(b.simNS) / 1e9,
-		"counters":              b.stats,
-		"faults_fired":          b.faults,
-		"reach_probes":          b.probes,
-		"step_kinds":            len(b.kinds),
+		"evaluations":                  b.runs,
+		"distinct_nontrivial":          len(b.ntfps),
+		"rule":                         s.Rule,
+		"samples":                      b.samples,
+		"distinct_fingerprints":        len(b.fps),
+		"nontrivial_runs":              b.nontrivial,
+		"aborted_runs":                 b.aborted,
+		"abort_reasons":                b.abortWhy,
+		"runs_per_hour":                int(float64(b.runs) / wall * 3600),
+		"simulated_time_s":             float64(b.simNS) / 1e9,
+		"counters":                     b.stats,
+		"faults_fired":                 b.faults,
+		"reach_probes":                 b.probes,
+		"step_kinds":                   len(b.kinds),
 		"distinct_step_ngrams_len2to4": len(b.ngrams),
-		"components":            s.Components,
-		"known_findings_hit":    b.knownN,
-		"workers":               workers,
-		"batch_digest":          fmt.Sprintf("%016x", b.digest),
+		"components":                   s.Components,
+		"known_findings_hit":           b.knownN,
+		"workers":                      workers,
+		"batch_digest":                 fmt.Sprintf("%016x", b.digest),
 	}
 	if len(b.samples) == 0 {
 		cov["samples"] = []interface{}{map[string]interface{}{"note": "no non-trivial clean run in this batch"}}
